@@ -296,8 +296,37 @@ pub fn bin_faults(e: &[u8], m: &Marks) -> Vec<Vec<u8>> {
             set.insert(f);
         }
     }
+    set.extend(freeform().iter().cloned());
     set.remove(e);
     set.into_iter().collect()
+}
+
+pub const FREEFORM_ALPHABET: &str = "independent of any valid encoding, offered at every site: texts of 200-400 bytes made of k ASCII letters (k = 0..3) followed by 100 two-, three- or four-byte UTF-8 characters (so that a multi-byte character straddles every fixed byte position, whatever it is), the same inside JSON string quotes, ASCII runs of 63 / 64 / 65 / 127 / 128 / 129 / 255 / 256 / 257 / 1000 / 4096 / 65536 bytes, 100 bytes of 0xff, a lone UTF-8 lead byte, a truncated four-byte character, a UTF-8 byte order mark followed by text, NUL bytes, 300 opening brackets, 300 opening braces with keys";
+
+/// Byte strings that are not derived from a valid encoding (see `FREEFORM_ALPHABET`).
+pub fn freeform() -> &'static [Vec<u8>] {
+    static F: std::sync::OnceLock<Vec<Vec<u8>>> = std::sync::OnceLock::new();
+    F.get_or_init(|| {
+        let mut v: Vec<Vec<u8>> = vec![];
+        for ch in ["\u{e9}", "\u{20ac}", "\u{1f980}"] {
+            for k in 0..4 {
+                let t = format!("{}{}", "a".repeat(k), ch.repeat(100));
+                v.push(t.clone().into_bytes());
+                v.push(format!("\"{t}\"").into_bytes());
+            }
+        }
+        for n in [63usize, 64, 65, 127, 128, 129, 255, 256, 257, 1000, 4096, 65536] {
+            v.push(vec![b'a'; n]);
+        }
+        v.push(vec![0xff; 100]);
+        v.push(vec![0xc3]);
+        v.push(vec![b'a', b'b', 0xf0, 0x9f, 0xa6]);
+        v.push(b"\xef\xbb\xbftext after a byte order mark, long enough to pass any short-input shortcut ............".to_vec());
+        v.push(vec![0u8; 100]);
+        v.push(vec![b'['; 300]);
+        v.push("{\"k\":".repeat(300).into_bytes());
+        v
+    })
 }
 
 pub const JSON_ALPHABET: &str = "for a valid JSON text j (n bytes): every proper prefix (incl. empty); every single-character substitution by each of { } [ ] \" , : 0 x \\ ; every value node of the document replaced by each of null, true, 0, -1, 1.5, \"s\", [], {} (type swaps); j followed by \"x\", by eight spaces and 1, by 64 closing brackets";
@@ -378,6 +407,7 @@ pub fn json_faults(j: &[u8]) -> Vec<Vec<u8>> {
     let mut f = j.to_vec();
     f.extend(std::iter::repeat(b']').take(64));
     set.insert(f);
+    set.extend(freeform().iter().cloned());
     set.remove(j);
     set.into_iter().collect()
 }
